@@ -68,16 +68,22 @@ theorem merge_stream_ok {β : Type} (ops : Ops β) {cover : Pyramid} (hc : cover
   (merged_good ops hc srcs hs).stream_ok
 
 /-- **every nesting**: whatever pipeline is built from good leaves — any depth, any combination
-    of filter_zoom, filter_bbox, from_overlayed, from_vectortiles_merged, update_properties —
+    of from_container, from_debug, filter_zoom, filter_bbox, from_overlayed, from_vectortiles_merged,
+    update_properties (all seven operations the factory registers) —
     the resulting operation satisfies C02 (and its lookups never fail, its coverage is
     well-formed).  Induction over the syntax tree `Pipe`. -/
 theorem pipe_stream_ok {β : Type} (ops : Ops β) (env : Nat → Outcome (Op β))
-    (henv : ∀ i o, env i = .ok o → Good o.src) (p : Pipe) (o : Op β) (h : build ops env p = .ok o) :
-    StreamOK o.src := (build_good ops env henv p o h).stream_ok
+    (henv : ∀ i o, env i = .ok o → Good o.src) (p : Pipe) (hd : p.DebugOK) (o : Op β) (h : build ops env p = .ok o) :
+    StreamOK o.src := (build_good ops env henv p hd o h).stream_ok
 
 theorem pipe_good {β : Type} (ops : Ops β) (env : Nat → Outcome (Op β))
-    (henv : ∀ i o, env i = .ok o → Good o.src) (p : Pipe) (o : Op β) (h : build ops env p = .ok o) :
-    Good o.src := build_good ops env henv p o h
+    (henv : ∀ i o, env i = .ok o → Good o.src) (p : Pipe) (hd : p.DebugOK) (o : Op β) (h : build ops env p = .ok o) :
+    Good o.src := build_good ops env henv p hd o h
+
+/-- **from_debug** (from_debug/mod.rs:99-116): the parallel `from_coord_iter_parallel` stream over
+    the box equals the lookups (every coordinate of the pyramid has a tile) -/
+theorem debug_stream_ok {β : Type} (ops : Ops β) {fmt : Nat} (hf : debugFmtOK fmt = true) : StreamOK (debugOp ops fmt).src :=
+  (debug_good ops hf).stream_ok
 
 /-- **versatiles reader** (versatiles/reader.rs:232-374): the chunked stream — block scan over the
     256-scaled box (missing blocks skipped), index scan filtered by the used box, sort by offset,
